@@ -49,6 +49,23 @@ HARD = {
     "semantics": "(this round) the analysis is broad (it follows helpers, closures, tables, trait objects, conversions; it evaluates small functions over finite domains; it knows the rules the earlier regressions gave rise to). Aim at what a rule-based analysis of THIS code base is least likely to have a rule for: (a) XML Schema / WSDL / SOAP SEMANTICS the code handles implicitly (defaults of absent attributes, `use=`, `nillable`, `form`, `mixed`, `abstract`, `substitutionGroup`, `xs:any`, `xs:list` / `xs:union`, `soap:header` parts, `style=rpc|document`, one-way operations, several ports / bindings / services, imports vs includes, chameleon includes, relative `schemaLocation`s) where a small well-meant generalisation or restriction changes what is generated for inputs that used to work; (b) the most recently changed code: the default-namespace handling in model/doc.rs + model/node.rs + `as_rust_type` in model/field.rs, the `ref=` branch of `Field::try_from_node`, `as_xml_prefix`, the reading of `<types>` sections in reader.rs; (c) state that is carried from one part of a run to a later one (the current target namespace, the registry of namespaces, flags on `Files`, the list of names being resolved) being left changed on a path that usually is not taken; (d) a semantic slip in the emitted helper module (helpers_content.rs) that still type-checks. Do not rely on obfuscation that no maintainer would write.",
 }
 
+HARD["second-order"] = ("(this round) the analysis is broad and deep: it follows helpers, closures, trait objects, tables, conversions, Display adaptors; it evaluates small "
+    "functions; it has a rule for each of the earlier regressions listed above and for their close relatives. Aim at SECOND-ORDER effects and at places no property anchor names: "
+    "(a) an invariant that one module establishes and another silently relies on (the order of `namespaces` vs `target_namespaces`, what `in_namespace` / `target_namespace` "
+    "hold for components reached through a lookup, which keys `Files` is asked with, what `resolving` holds during nested lookups, which documents `extend` has merged when a "
+    "lookup runs) - change the establishing side in a way that looks harmless there; (b) error paths: a `?` moved across a state change, an error turned into a default with "
+    "`.ok()` / `unwrap_or_default()` / `if let Ok`, a `continue` where a `return Err` was, a partial result kept after a failure; (c) the RUNTIME behaviour of generated code: "
+    "what the emitted impls and helper functions do when called (Default values, Option / Vec handling in `check_restrictions`, what is sent for an absent header, credentials "
+    "handling, response handling) rather than whether the text compiles; (d) numeric and boundary semantics: parsing of maxOccurs / facet values, conversions between integer "
+    "widths, lengths in bytes vs characters, empty vs absent strings; (e) the command line: how input / output paths and siblings are determined. "
+    "Do not rely on obfuscation that no maintainer would write.")
+
+STYLES_EXTRA = {
+    "S": "Techniques for this set (one main technique per patch): API-EVOLUTION refactorings that keep behaviour: (1) newtypes for the strings that are passed around (`struct XmlName(String)`, `struct ModName(String)`, `struct Prefix(String)`) with `Deref` / `AsRef<str>` / `Display` / `From`, used in one or two structs and adapted at the call sites; (2) replace a pair or triple of `bool` fields / parameters by a small enum (`Cardinality::{One, Optional, Many}`, `FieldKind::{Element, Attribute}`) with helper methods that give back the old booleans, keeping every decision the same; (3) a builder or constructor function for a struct that is now built with a struct literal in several places (`Field::new(..).optional(..).repeated(..)`), or the reverse; (4) split a trait or add a small trait (`trait HasXmlName { fn xml_name(&self) -> Option<&str> }`, `trait Emit`) and move free functions into impls / default methods, called statically or through `&dyn`; (5) change a function's return shape without changing what callers observe: `Option<Result<T>>` <-> `Result<Option<T>>` with `transpose`, `Vec<T>` <-> `impl Iterator<Item = T>` collected by the caller, out-parameters (`&mut Vec<Field>`) <-> returned values appended by the caller in the same order; (6) move code between modules / files (a `naming` module for the case and keyword functions, a `lookup` module for the component search, a `templates` module for writer functions) with re-exports so that paths used elsewhere keep working; (7) the emitted helper module helpers_content.rs: introduce a small private struct or trait there (e.g. `struct Bound<'a>(&'static str, Option<i32>, fn(i128, i128) -> bool)`, a `trait Facet`) and route the existing checks through it with identical decisions and messages, or make `send_soap_request*` share code through a private generic function.",
+    "T": "Techniques for this set (one main technique per patch): DATA-FLOW RESHAPING that keeps behaviour: (1) compute values earlier or later where that is equivalent (hoist pure computations out of loops and branches, sink them into the only branch that uses them), introduce or remove intermediate `let`s, shadowing, destructuring of `self` / parameters at the top of a function; (2) pass a small context struct or tuple instead of several parameters, or explode such a struct into parameters; reorder parameters; turn methods into associated / free functions and back; (3) merge two passes over a collection into one pass that fills two results, or split one pass into two, where the effects of the rounds are independent; replace index loops by `zip` / `enumerate` / `windows` and back; (4) replace `match` on `Option` / `Result` by `?` in a helper function or closure that returns `Option` / `Result`, `let .. else`, `map_or_else`, `ok_or_else(..)?.`, `and_then` chains - and at least one patch in the reverse direction (chains unfolded into explicit `match` with early returns); (5) strings: build with `format!` vs `push_str` vs `write!` into a `String` vs `concat` / `join` of parts vs `std::fmt::Display` impl on a small struct; templates split differently into `write!` calls (several holes per call, one call per line, one call for a whole item); (6) collections: `Vec` + `contains` <-> `BTreeSet` where only membership is asked, `Vec<(K, V)>` <-> map with keyed lookup only, sort-free dedup in insertion order kept as it is; pre-collect into a `Vec` vs iterate lazily where no side effect in between depends on it; (7) in zeep/src/main.rs and zeep-lib/src/utils.rs: the same kinds of reshaping for argument handling, path computations and the order of purely local steps, keeping which files are read / written, when, and what is printed.",
+}
+STYLES_LATE = True
+
 BENIGN_TPL = '''You are helping to evaluate a verification effort for the Rust project "zeep" (a small CLI + library that reads XSD/WSDL files and generates yaserde-annotated Rust structs plus async SOAP client code). The verification is a STATIC ANALYSIS of the project's source that has to stay silent when the behaviour does not change. Your job is to play the part of a maintainer who REFACTORS code WITHOUT changing behaviour, in ways that are legitimate but hard for a static analysis to see through.
 
 Your own scratch git worktree of the project is at __WT__ (detached HEAD, clean). Work ONLY there and under __OUT__. Never touch /repo or /verif, never commit, never run `git stash`. The machine is offline: use `cargo ... --offline` and set `export CARGO_TARGET_DIR=__TARGET__ CARGO_NET_OFFLINE=true` in every shell command (shell state does not persist between your commands). The existing test suite is `cargo test --workspace --offline` (32 tests in zeep-lib), run from the worktree root. The CLI crate is `zeep/` (see zeep/src/main.rs), the library `zeep-lib/`; zeep-lib/src/model/helpers_content.rs is the text of the helper module copied into every generated file (it is also compiled as a module of zeep-lib).
@@ -103,7 +120,7 @@ def seeds(base, rnd, hard):
 def benign(base, style):
     os.makedirs(f"{base}/out", exist_ok=True)
     t = (BENIGN_TPL.replace("__WT__", f"{base}/wt").replace("__OUT__", f"{base}/out").replace("__TARGET__", f"{base}/target")
-         .replace("__STYLE__", STYLES[style]))
+         .replace("__STYLE__", {**STYLES, **STYLES_EXTRA}[style]))
     open(f"{base}/prompt.txt", "w").write(t)
     sh("git", "-C", "/repo", "worktree", "add", "-q", "--detach", f"{base}/wt", "HEAD")
     print(base)
